@@ -123,6 +123,10 @@ pub fn generate(seed: u64) -> C19Scn {
     };
     let mut doc = doc::generate(&mut rng, &p);
     avoid_known_c01_panic(&mut doc);
+    if rng.chance(1, 50) {
+        // a legal if odd configuration: the same tag name for both kinds of element
+        doc.rm_tag = doc.tl_tag.clone();
+    }
 
     let mut initial_targets = Vec::new();
     if rng.chance(1, 3) {
@@ -257,7 +261,7 @@ fn tick_exec(scn: &C19Scn, t: &Tick) -> Exec {
             decoy.clone()
         }
     };
-    Exec { argv, stdin: StdinSpec::Tty, env: t.env.clone(), clock, io: t.io.clone(), stdout_tty: false }
+    Exec { argv, stdin: StdinSpec::Tty, env: t.env.clone(), clock, io: t.io.clone(), stdout_tty: false, sizeless: vec![] }
 }
 
 /// The instants the run may have used as "now" (a sound envelope when the
